@@ -174,3 +174,41 @@ func VerifH_C07_v4()  { verif.RunTimed(func() { c07v4(3) }) }
 func VerifH_C07_v3()  { verif.RunTimed(func() { c07v3(3) }) }
 func VerifHT_C07_v4_long() { verif.RunTimed(func() { c07v4(5) }) }
 func VerifHT_C07_v3_long() { verif.RunTimed(func() { c07v3(5) }) }
+
+// VerifH_C07_v4_silent_polling: a polling client that read its handshake and then
+// vanished (no poll pending, so nothing can be written any more): the ping goes unanswered
+// and the session closes with 'ping timeout' exactly one interval plus one timeout after
+// it opened -- whether or not the ping could be written.
+func VerifH_C07_v4_silent_polling() {
+	verif.RunTimed(func() {
+		I, T := verif.Int64(), verif.Int64()
+		verif.Assume(I >= 1 && I <= 1<<40 && T >= 1 && T <= 1<<40)
+		opts := config.DefaultServerOptions()
+		opts.SetPingInterval(time.Duration(I))
+		opts.SetPingTimeout(time.Duration(T))
+		ps := newProtoServer(opts)
+		ctx, _ := newCtx("GET", "/engine.io/")
+		ctx.Query().Set("transport", transports.POLLING)
+		ctx.Query().Set("EIO", "4")
+		_, tr := ps.Handshake(transports.POLLING, ctx)
+		verif.Assume(tr != nil)
+		ft := ps.made[0]
+		sock, _ := ps.Clients().Load(ft.Sid())
+		rec := &evRec{}
+		rec.listen(sock, "close")
+		pendingPoll := verif.Bool()
+		if pendingPoll {
+			ft.complete() // the client polls once more and then goes silent
+		}
+		verif.SleepUntil(I + T - 1)
+		verif.Assert(rec.count("close") == 0 && sock.ReadyState() == "open", "not closed before the deadline")
+		verif.SleepUntil(I + T)
+		verif.Settle()
+		verif.Assert(rec.count("close") == 1, "closed exactly at ping + timeout")
+		if rec.count("close") == 1 {
+			r, _ := rec.args[rec.first("close")][0].(string)
+			verif.Assert(r == "ping timeout", "with reason 'ping timeout'")
+		}
+		verif.Assert(ps.Clients().Len() == 0, "and removed from the table")
+	})
+}
